@@ -155,6 +155,81 @@ func runC02(c *runCtx) {
 			}
 		}
 	}
+	// mixed nestings: two value-wrapping productions alternate in blocks, so that no single production is nested
+	// beyond the limit but the total is — "whatever construct is nested"
+	type wrapper struct{ name, open, close string }
+	wrappers := []wrapper{
+		{"parens", "(", ")"}, {"call", "f(", ")"}, {"case-then", "CASE WHEN a THEN ", " END"}, {"scalar-subquery", "(SELECT ", ")"},
+		{"cast", "CAST(", " AS INT)"}, {"coalesce", "COALESCE(x, ", ")"}, {"array", "ARRAY[", "]"}, {"in-subquery-value", "(SELECT 1 FROM t WHERE a IN (SELECT ", "))"},
+		{"derived-table-value", "(SELECT x FROM (SELECT ", ") z)"},
+	}
+	blocks := [][2]int{{1, 1}, {40, 1}, {1, 40}, {30, 30}, {99, 99}}
+	for _, w1 := range wrappers {
+		for _, w2 := range wrappers {
+			if w1.name == w2.name {
+				continue
+			}
+			name := w1.name + "+" + w2.name
+			// non-vacuity: one level of each is accepted
+			if a := pool.Run("parse", []byte("SELECT "+w1.open+w2.open+"1"+w2.close+w1.close+" FROM t"), 30*time.Second); a != "ok" {
+				res.stat("mixed-template-rejected-shallow:" + name)
+				continue
+			}
+			for _, bl := range blocks {
+				per := bl[0] + bl[1]
+				for _, total := range []int{maxDepth + 60, 4 * maxDepth} {
+					r := total/per + 1
+					var open, cl strings.Builder
+					for i := 0; i < r; i++ {
+						open.WriteString(rep(w1.open, bl[0]) + rep(w2.open, bl[1]))
+					}
+					for i := 0; i < r; i++ {
+						cl.WriteString(rep(w2.close, bl[1]) + rep(w1.close, bl[0]))
+					}
+					sql := "SELECT " + open.String() + "1" + cl.String() + " FROM t"
+					ans := pool.Run("parse", []byte(sql), 120*time.Second)
+					res.count(fmt.Sprintf("mixed|%s|%dx%d|%d", name, bl[0], bl[1], r*per), true)
+					wit := map[string]any{"outer": w1.name, "inner": w2.name, "block": bl, "blocks": r, "total_depth": r * per, "sql_prefix": truncate(sql, 200)}
+					switch {
+					case ans == "crash":
+						res.fail("nest-crash:mixed:"+name, fmt.Sprintf("process killed parsing %s alternating in blocks of %d and %d, %d levels in all", name, bl[0], bl[1], r*per), wit, nil)
+					case ans == "hang":
+						res.fail("nest-hang:mixed:"+name, "no answer within 120 s", wit, nil)
+					case ans == "ok":
+						res.fail("nest-accepted:mixed:"+name, fmt.Sprintf("%s alternating in blocks of %d and %d, %d levels in all (limit %d), is accepted: the depth limit does not cover mixed nesting", name, bl[0], bl[1], r*per, maxDepth), wit, nil)
+					case strings.HasPrefix(ans, "panic"):
+						res.fail("nest-panic:mixed:"+name, "panic escaped: "+ans, wit, nil)
+					default:
+						res.stat("mixed-rejected")
+					}
+				}
+			}
+		}
+	}
+	// long runs of one lexical element (comments of every style, blanks, words, literals, punctuation) under every
+	// dialect: the tokenizer's stack use does not grow with the length of the input
+	for _, piece := range []string{"-- c\n", "# c\n", "#\n", "/* c */ ", "/**/", "// c\n", "\n", " \t", "a ", "1 ", "'x' ", "\"q\" ", "`b` ", "( ", ") ", ", ", "; ", "- ", "$1 ", "$$x$$ ", ":p ", "@v ", "?"} {
+		n := 400000
+		if lim["MaxInputSize"] > 0 && n*len(piece) > int(lim["MaxInputSize"])-16 {
+			n = (int(lim["MaxInputSize"]) - 16) / len(piece)
+		}
+		data := []byte(rep(piece, n) + "SELECT 1")
+		for _, ep := range []string{"tokenize", "tokenize:alldialects"} {
+			ans := pool.Run(ep, data, 120*time.Second)
+			res.count(fmt.Sprintf("long-run|%q|%s", piece, ep), true)
+			wit := map[string]any{"piece": piece, "repeated": n, "entry": ep}
+			switch {
+			case ans == "crash":
+				res.fail("long-run-crash:"+ep, fmt.Sprintf("process killed (fatal error) tokenizing %d repetitions of %q", n, piece), wit, nil)
+			case ans == "hang":
+				res.fail("long-run-hang:"+ep, "no answer within 120 s", wit, nil)
+			case strings.HasPrefix(ans, "panic"):
+				res.fail("long-run-panic:"+ep, "panic escaped: "+ans, wit, nil)
+			default:
+				res.stat("long-run:" + strings.SplitN(ans, " ", 2)[0])
+			}
+		}
+	}
 	// byte-size limit: exactly at the limit is not rejected for that reason, one more byte is
 	maxSize := int(lim["MaxInputSize"])
 	maxTok := int(lim["MaxTokens"])
